@@ -21,6 +21,7 @@ EXPLANATION = (
     'Also decided (round 9): The forwarding proxy is constructed for the request. '
     'Also decided (round 11): String methods are called on the presented key only once it is known to be a str; the retry bound of the proxy method object is shared from C03 (one HTTP request, one invocation). '
     'Also decided (round 10): The json encoder behind the gateway encodes the whole result or raises (shared from C01). '
+    'Also decided (round 12): No class of the gateway collects request data in a container shared by all its instances. '
 )
 
 GW = "Pyro5.utils.httpgateway"
@@ -234,6 +235,28 @@ def run(ctx, R, tier):
     for o in R03_.obs:
         if o.rule == "C03-R6" and o.key.split("|")[1] in ("_RemoteMethod.__call__", "_RemoteMethod.__init__"):
             R.add("C20-R3", "forwarded-once|" + o.key.split("|", 1)[1], o.desc + " (one HTTP request is one invocation unless retries were asked for)", o.ok, o.loc, o.detail)
+    # what a request asks for (its options, its parameters) lives in objects made for that request: a container that sits on a CLASS of the gateway module (or at module
+    # level) and is filled from request data keeps it for every later request - one `X-Pyro-Options: oneway` would make all following calls oneway (200 with no result)
+    gwmod = ctx.p.modules["Pyro5.utils.httpgateway"]
+    shared_boxes = {}
+    for cd in [n for n in ast.walk(gwmod.tree) if isinstance(n, ast.ClassDef)]:
+        for st in cd.body:
+            if isinstance(st, ast.Assign) and len(st.targets) == 1 and isinstance(st.targets[0], ast.Name) and \
+                    (isinstance(st.value, (ast.List, ast.Dict, ast.Set)) or (isinstance(st.value, ast.Call) and isinstance(st.value.func, ast.Name) and st.value.func.id in ("set", "list", "dict") and not st.value.args)):
+                shared_boxes[(cd.name, st.targets[0].id)] = st
+    filled = None
+    for cd in [n for n in ast.walk(gwmod.tree) if isinstance(n, ast.ClassDef)]:
+        for x in ast.walk(cd):
+            if isinstance(x, ast.Call) and isinstance(x.func, ast.Attribute) and x.func.attr in ("add", "append", "update", "extend", "insert", "setdefault", "__setitem__") and \
+                    isinstance(x.func.value, ast.Attribute) and isinstance(x.func.value.value, ast.Name) and x.func.value.value.id in ("self", "cls", cd.name) and \
+                    (cd.name, x.func.value.attr) in shared_boxes and not any(isinstance(a, ast.Assign) and any(isinstance(t, ast.Attribute) and t.attr == x.func.value.attr and
+                                                                                                                 isinstance(t.value, ast.Name) and t.value.id == "self" for t in a.targets)
+                                                                            for a in ast.walk(cd)):
+                filled = filled or (cd, x)
+    R.check(filled is None, "C20-R3", "request-state|not-kept-on-a-class", "no class of the gateway collects request data in a container shared by all its instances (%d class-level containers)" % len(shared_boxes),
+            ("%s:%d" % (gwmod.relpath, filled[1].lineno)) if filled else gwmod.relpath,
+            ("`%s` fills `%s.%s`, a container created once in the class body and shared by every instance: what one request put there (its options) is still there for the next "
+             "request - e.g. every call after one oneway request is sent oneway and answered 200 without its result" % (unparse(filled[1], 60), filled[0].name, filled[1].func.value.attr)) if filled else "")
     from .common import names_bound
     names_bound(ctx, R, "C20-R3", {"Pyro5.utils.httpgateway"}, "the request is answered by the WSGI server's generic crash page instead of the gateway's 200/403/404/405/500 mapping")
     # the gateway forces the json serializer and relays the reply bytes: "that call's JSON result (200) or its error (500)" rests on the encoder refusing what json cannot
